@@ -123,6 +123,13 @@ func (b *batchedEvents) UnmarshalMsg(bts []byte) (o []byte, err error) {
 		err = msgp.WrapError(err)
 		return
 	}
+	// Every event occupies at least one byte, so a header that announces more events than
+	// there are bytes left is malformed; believing it would allocate up to 2^32 elements
+	// (terabytes: a fatal, unrecoverable out-of-memory) for a request of a few bytes.
+	if int64(totalValues) > int64(len(bts)) {
+		err = msgp.WrapError(msgp.ErrShortBytes)
+		return
+	}
 	b.events = make([]batchedEvent, totalValues)
 	for i := range b.events {
 		b.events[i].cfg = b.cfg
